@@ -94,3 +94,10 @@ func (c *channel) vpWait(point string, signal chan struct{}) {
 		})
 	}
 }
+
+// verifYield is the hook used outside the channel (bootstrap, listener, holder).
+func verifYield(point string, enabled func() bool) {
+	if s := verifSched; s != nil {
+		s.Yield(point, enabled)
+	}
+}
